@@ -479,3 +479,31 @@ func TestVerifC17SyncReplayDir(t *testing.T) {
 		}
 	}
 }
+
+// TestVerifReplay re-runs one saved engine-4 case (VERIF_REPLAY; run.py --replay builds this package for failure
+// files whose "job" is sync / syncreplay).
+func TestVerifReplay(t *testing.T) {
+	ev := evid.For(c17Prop)
+	defer evid.Flush(0)
+	var c c17SyncCase
+	ok, err := evid.LoadReplay(&c)
+	if !ok {
+		t.Skip("no VERIF_REPLAY")
+	}
+	if err != nil {
+		t.Fatal(err)
+	}
+	if c.Engine != "regsync" {
+		t.Skipf("case of engine %q belongs to harness/c17", c.Engine)
+	}
+	for i := 0; i < 5; i++ {
+		var inc string
+		v := evid.Guard(func() *evid.Violation { v, i := c17Check(c, ev); inc = i; return v })
+		if ev.Report(v, c) {
+			t.Fatalf("%v", v)
+		}
+		if inc != "" {
+			c17Fail(t, inc)
+		}
+	}
+}
